@@ -750,6 +750,9 @@ unsafe fn do_write(fd: c_int, buf: *const c_void, n: size_t, off: Option<off_t>)
     };
     let bytes = std::slice::from_raw_parts(buf as *const u8, n);
     s.point('W', &rel, pos, mixhash(n as u64, hash_bytes(bytes)));
+    if role == Role::Wal {
+        *s.counters.entry("bytes/wal".to_string()).or_insert(0) += n as u64;
+    }
     if let Some((e, short)) = s.check_fault("write", role) {
         if short && n > 1 {
             let k = n / 2;
